@@ -24,6 +24,7 @@ type Problem struct {
 // Stats is what was observed on one input.
 type Stats struct {
 	Nodes, Leaves, Errors int
+	ASTLinks              int // nodes reached through exported fields and looked up among Children
 	NodeTypes             map[string]bool
 	RedirLeft             int
 	Trailing              bool // the tree stops before the end of the source
@@ -35,6 +36,81 @@ func typeName(n parse.Node) string {
 		return "Primary/" + p.Type.String()
 	}
 	return strings.TrimPrefix(fmt.Sprintf("%T", n), "*parse.")
+}
+
+// astKids lists the nodes a node refers to through its exported (AST) fields.
+// The package documentation calls every node an "AST/parse tree hybrid" whose
+// exported fields give the semantic view and whose Children give *all* its
+// children, so each of these must also be one of Children(n).
+func astKids(n parse.Node) []parse.Node {
+	var out []parse.Node
+	addC := func(cs []*parse.Compound) {
+		for _, c := range cs {
+			out = append(out, c)
+		}
+	}
+	addM := func(ms []*parse.MapPair) {
+		for _, m := range ms {
+			out = append(out, m)
+		}
+	}
+	switch n := n.(type) {
+	case *parse.Chunk:
+		for _, p := range n.Pipelines {
+			out = append(out, p)
+		}
+	case *parse.Pipeline:
+		for _, f := range n.Forms {
+			out = append(out, f)
+		}
+	case *parse.Form:
+		if n.Head != nil {
+			out = append(out, n.Head)
+		}
+		addC(n.Args)
+		addM(n.Opts)
+		for _, r := range n.Redirs {
+			out = append(out, r)
+		}
+	case *parse.Redir:
+		if n.Left != nil {
+			out = append(out, n.Left)
+		}
+		if n.Right != nil {
+			out = append(out, n.Right)
+		}
+	case *parse.Filter:
+		addC(n.Args)
+		addM(n.Opts)
+	case *parse.Compound:
+		for _, in := range n.Indexings {
+			out = append(out, in)
+		}
+	case *parse.Indexing:
+		if n.Head != nil {
+			out = append(out, n.Head)
+		}
+		for _, a := range n.Indices {
+			out = append(out, a)
+		}
+	case *parse.Array:
+		addC(n.Compounds)
+	case *parse.Primary:
+		addC(n.Elements)
+		if n.Chunk != nil {
+			out = append(out, n.Chunk)
+		}
+		addM(n.MapPairs)
+		addC(n.Braced)
+	case *parse.MapPair:
+		if n.Key != nil {
+			out = append(out, n.Key)
+		}
+		if n.Value != nil {
+			out = append(out, n.Value)
+		}
+	}
+	return out
 }
 
 // CheckTree walks the tree returned for src and reports every breach of the
@@ -83,6 +159,34 @@ func CheckTree(src string, root parse.Node, errs []*parse.Error) (Stats, []Probl
 			st.RedirLeft++
 		}
 		ch := parse.Children(nd)
+		if ak := astKids(nd); len(ak) > 0 {
+			st.ASTLinks += len(ak)
+			var set map[parse.Node]bool
+			if len(ch) > 12 {
+				set = make(map[parse.Node]bool, len(ch))
+				for _, c := range ch {
+					set[c] = true
+				}
+			}
+			for _, k := range ak {
+				found := false
+				if set != nil {
+					found = set[k]
+				} else {
+					for _, c := range ch {
+						if c == k {
+							found = true
+							break
+						}
+					}
+				}
+				if !found {
+					add("ast:field-node-not-in-tree:"+tn, "%s node [%d,%d): the %s node [%d,%d) held in one of its exported fields is not among its Children",
+						tn, rg.From, rg.To, typeName(k), k.Range().From, k.Range().To)
+					break
+				}
+			}
+		}
 		if len(ch) == 0 {
 			st.Leaves++
 			leaves.WriteString(want)
@@ -278,6 +382,7 @@ func checkInput(c *mon.Case, kind, src string) (valid bool) {
 	}
 	c.Count("nodes_checked", st.Nodes)
 	c.Count("leaves_checked", st.Leaves)
+	c.Count("ast_field_links_checked", st.ASTLinks)
 	c.Count("errors_checked", st.Errors)
 	c.Count("redir_with_destination_nodes", st.RedirLeft)
 	c.Max("input_bytes", len(src))
@@ -514,8 +619,9 @@ func runDeep(c *mon.Case) {
 func Spec() *mon.Spec {
 	return &mon.Spec{
 		ID: "C01", Level: "exploration",
-		Rule: "case = batch of inputs fed to parse.Parse: uniformly random bytes (0..64), strings over the adversarial alphabet (0..48 pieces: metacharacters, whitespace, invalid UTF-8, controls, wide/astral runes), grammar-generated programs (gen.ElvProgramTree, one in four with invalid UTF-8 inside strings/comments/barewords), 1..3 token-/byte-level mutations of such programs, every string of <= 3 (thorough: 4) symbols over a 40-symbol alphabet, deeply nested / long inputs, and (phase parse-as) expressions / fragments fed to the low-level entry parse.ParseAs with each of 13 kinds of root node (Filter, Pipeline, Form, Compound in every expression context, Indexing, Primary, Array, MapPair, Redir, Chunk). For every input: the call returns (panic and non-return are violations), every node has 0<=From<=To<=len, SourceText==src[From:To], children tile the node in order, Parent links are right, the leaves concatenate to the text the root covers, and every error range lies inside the source. Non-trivial = non-empty input whose tree has >= 3 node types or that has >= 1 parse error; distinct by input text.",
+		Rule: "case = batch of inputs fed to parse.Parse: uniformly random bytes (0..64), strings over the adversarial alphabet (0..48 pieces: metacharacters, whitespace, invalid UTF-8, controls, wide/astral runes), grammar-generated programs (gen.ElvProgramTree, one in four with invalid UTF-8 inside strings/comments/barewords), 1..3 token-/byte-level mutations of such programs, every string of <= 3 (thorough: 4) symbols over a 40-symbol alphabet, deeply nested / long inputs, and (phase parse-as) expressions / fragments fed to the low-level entry parse.ParseAs with each of 13 kinds of root node (Filter, Pipeline, Form, Compound in every expression context, Indexing, Primary, Array, MapPair, Redir, Chunk). For every input: the call returns (panic and non-return are violations), every node has 0<=From<=To<=len, SourceText==src[From:To], children tile the node in order, Parent links are right, every node held in an exported (AST) field is one of its holder's Children, the leaves concatenate to the text the root covers, and every error range lies inside the source. Non-trivial = non-empty input whose tree has >= 3 node types or that has >= 1 parse error; distinct by input text.",
 		Assumptions: []string{
+			"nodes reachable through exported fields (Form.Args, Primary.Chunk, ...) are required to be parse-tree children of their holder, from the package documentation (each node is an AST/parse-tree hybrid; Children returns all children); without this a tree can stay 'lossless' while the semantic nodes are detached from it",
 			"when the parser cannot consume a trailing part of the input, the root covers the consumed prefix only; the check then demands that a parse error starts exactly where the tree ends (anchor mechanism 'trailing unparsed text is reported') and that the leaves concatenate to the covered prefix; the whole source is demanded whenever the root reaches the end",
 			"termination is decided with a generous watchdog: a parse of a <= 100 KB input that has not returned after 110 s is reported as non-termination, one that needs between 10 s and 110 s as inconclusive",
 			"Go native coverage-guided fuzzing is not part of the tiers; the count-bounded generators and the exhaustive short-string enumeration stand in for it",
@@ -530,7 +636,7 @@ func Spec() *mon.Spec {
 			{Name: "deep", Quick: 160, Thorough: 800, Run: runDeep, Timeout: 300 * time.Second, Batch: 10},
 		},
 		Floors: map[string]int{
-			"distinct_nontrivial": 100000, "inputs": 120000, "nodes_checked": 3000000, "errors_checked": 100000,
+			"distinct_nontrivial": 100000, "inputs": 120000, "nodes_checked": 3000000, "ast_field_links_checked": 2000000, "errors_checked": 100000,
 			"inputs_without_error": 20000, "valid_nonempty_grammar": 12000, "inputs_mutated": 25000, "inputs_exhaustive": 20000,
 			"redir_with_destination_nodes": 2000, "primary_types": 13, "inputs_parse_as": 15000, "parse_as_roots": 13, "node_types": 20, "inputs_with_unconsumed_tail": 10000, "error_messages": 15,
 		},
